@@ -247,7 +247,11 @@ def taggers(tier, npos):
            "same-prefix+stored": lambda k, x: x.tagged(
                PrefixNamed("w")).tagged(S),
            "same-prefix+subst": lambda k, x: x.tagged(
-               PrefixNamed("w")).tagged(U)}
+               PrefixNamed("w")).tagged(U),
+           # a prefix that is the name of a size parameter / a placeholder
+           # of the programs ("n", "a"): user names are reserved first
+           "prefix-is-an-input-name": lambda k, x: x.tagged(
+               PrefixNamed("n" if k % 2 else "a"))}
     if tier == "thorough":
         for combo in itertools.product([None, S, U, I], repeat=min(npos, 4)):
             out["combo:" + "".join("-" if t is None else type(t).__name__[4]
@@ -283,7 +287,10 @@ class KernelMeaning(Contract):
                  "pytato.target.loopy.codegen:domain_for_shape",
                  "pytato.codegen:preprocess",
                  "pytato.codegen:CodeGenPreprocessor.*")
-    properties = ("C07", "C01", "C11", "C16")
+    # (C05: "lowering/preprocessing for code generation" preserves every
+    # output -- pytato.codegen.preprocess is the first half of generate_loopy,
+    # and what the kernel is validated against is the program before it)
+    properties = ("C07", "C01", "C11", "C16", "C05")
     max_paths = 20
 
     def instances(self, tier):
@@ -302,6 +309,18 @@ class KernelMeaning(Contract):
                  "kernel.in-bounds", ("C11",))]
 
     def run(self, h, inst):
+        from pyvc.sym import EngineFault
+        try:
+            return self._run(h, inst)
+        except EngineFault as e:
+            # translation validation: a kernel the denotation cannot give a
+            # meaning to (one name for two things of different rank, an
+            # instruction reading what nothing writes) is rejected -- on the
+            # unchanged tree every listed program has a denotation
+            h.fail("kernel.wellformed.has-a-denotation", str(e)[:300],
+                   props=("C07", "C01", "C15", "C05"))
+
+    def _run(self, h, inst):
         import loopy as lp
         prog = inst["prog"]
         if prog.startswith("random:"):
@@ -363,7 +382,7 @@ class KernelMeaning(Contract):
         for nm in knl.arg_dict:
             if isinstance(knl.arg_dict[nm], lp.ValueArg):
                 h.assume(z3.Int(f"sp_{nm}") >= 0)
-        P = ("C07", "C01")
+        P = ("C07", "C01", "C05")
         # -- well-formedness: every iname is declared by exactly one domain
         #    (a name shared by two loop/reduction domains merges them)
         import islpy as isl
